@@ -12,8 +12,8 @@ import re
 
 from vf import core
 
-C_QUICK, S_QUICK = (0, 4), (1, 3)
-C_THOROUGH, S_THOROUGH = (0, 4, 2, 6), (1, 5, 3)
+C_QUICK, S_QUICK = (0, 4), (5, 7)  # server ids 5, 7 are paired with client ids 1, 3: ids differ on the two connections
+C_THOROUGH, S_THOROUGH = (0, 4, 2, 6), (1, 5, 7)
 KINDS = frozenset({"data", "data_end", "end", "reset"})
 _PAY = re.compile(rb"<d(\d+)>")
 
@@ -108,16 +108,18 @@ class Runner:
             conn = "client" if c.connection is self.ctx.client else "server" if c.connection is self.ctx.server else "?"
             if isinstance(c, qc.SendQuicStreamData):
                 if c.data:
-                    self.trace.append({"k": "out", "conn": conn, "sid": c.stream_id, "kind": "data", "d": self._pay(c.data)})
+                    self.trace.append({"k": "out", "conn": conn, "sid": c.stream_id, "kind": "data", "d": self._pay(c.data),
+                                       "code": 0})
                     self._seen_out(conn, c.stream_id)
                 if c.end_stream:
-                    self.trace.append({"k": "out", "conn": conn, "sid": c.stream_id, "kind": "end", "d": 0})
+                    self.trace.append({"k": "out", "conn": conn, "sid": c.stream_id, "kind": "end", "d": 0, "code": 0})
                     self._seen_out(conn, c.stream_id)
                 if not c.data and not c.end_stream:
-                    self.trace.append({"k": "out", "conn": conn, "sid": c.stream_id, "kind": "empty", "d": 0})
+                    self.trace.append({"k": "out", "conn": conn, "sid": c.stream_id, "kind": "empty", "d": 0, "code": 0})
             else:
                 kind = "reset" if isinstance(c, qc.ResetQuicStream) else "stop" if isinstance(c, qc.StopSendingQuicStream) else type(c).__name__
-                self.trace.append({"k": "out", "conn": conn, "sid": c.stream_id, "kind": kind, "d": 0})
+                self.trace.append({"k": "out", "conn": conn, "sid": c.stream_id, "kind": kind, "d": 0,
+                                   "code": int(c.error_code) if kind == "reset" else 0})
                 self._seen_out(conn, c.stream_id)
             return None
         if isinstance(c, commands.CloseConnection):
@@ -158,7 +160,8 @@ class Runner:
             d = self.nd
         self.cause = (conn, sid)
         self.known[conn].add(sid)
-        self.trace.append({"k": "in", "conn": conn, "sid": sid, "kind": kind, "d": d})
+        self.trace.append({"k": "in", "conn": conn, "sid": sid, "kind": kind, "d": d,
+                           "code": 100 + sid if kind == "reset" else 0})
         c = self.conns[conn]
         if kind == "reset":
             ev = qe.QuicStreamReset(c, sid, 100 + sid)
@@ -236,6 +239,19 @@ def run_random(seed, n, nstreams, p_hook):
     def uni(s):
         return (s >> 1) & 1 == 1
 
+    # a reset that meets a pending hook is relayed as FIN (known finding C30-F2) and ends the judged part of the trace;
+    # most runs therefore only reset streams whose flow is not waiting for a hook
+    calm = rng.random() < 0.7
+
+    def busy(c, sid):
+        for f in r.hooks_pending():
+            o = r.flow_origin.get(f)
+            if o is None:
+                continue
+            if o == (c, sid) or (o[0] != c and r.pair_obs.get(o) == sid):
+                return True
+        return False
+
     for _ in range(n):
         if r.dead:
             break
@@ -255,10 +271,14 @@ def run_random(seed, n, nstreams, p_hook):
             for sid in set(usable):
                 if (c, sid) in rst:
                     continue
+                quiet = not (calm and busy(c, sid))
                 if (c, sid) in fin:
-                    acts.append(("in", c, sid, "reset"))
+                    if quiet:
+                        acts.append(("in", c, sid, "reset"))
                 else:
-                    acts += [("in", c, sid, k) for k in ("data", "data", "data_end", "end", "reset")]
+                    acts += [("in", c, sid, k) for k in ("data", "data", "data_end", "end")]
+                    if quiet:
+                        acts += [("in", c, sid, "reset")] * 2
             if rng.random() < 0.08:
                 acts.append(("close", c))
         if not acts:
@@ -272,7 +292,7 @@ def run_random(seed, n, nstreams, p_hook):
             sid = next_own[c][k]
             next_own[c][k] += 4 * rng.choice((1, 1, 2))  # peers may skip ids
             opened[c].append(sid)
-            kind = rng.choice(("data", "data", "data_end", "end", "reset"))
+            kind = rng.choice(("data", "data", "data_end", "end") if calm else ("data", "data", "data_end", "end", "reset"))
             if kind == "reset":
                 rst.add((c, sid))
             elif kind in ("end", "data_end"):
@@ -322,7 +342,7 @@ class Check(core.PropertyCheck):
         if tier == "quick":
             return {"CStreams": frozenset(C_QUICK), "SStreams": frozenset(S_QUICK), "Kinds": KINDS, "MaxOps": 2,
                     "MaxData": 2, "MaxCloses": 1, "LateEvents": False}
-        return {"CStreams": frozenset({0, 4, 2}), "SStreams": frozenset({1, 3}), "Kinds": KINDS, "MaxOps": 3,
+        return {"CStreams": frozenset({0, 4, 2}), "SStreams": frozenset({5, 3}), "Kinds": KINDS, "MaxOps": 3,
                 "MaxData": 3, "MaxCloses": 1, "LateEvents": False}
 
     def model_runs(self, ctx):
@@ -361,8 +381,8 @@ class Check(core.PropertyCheck):
         g = models[0].graph
         consts = models[0].constants
         behs = g.edge_cover(ctx.rng, max_len=40, tail=5)
-        if ctx.quick and len(behs) > 4000:
-            behs = ctx.rng.sample(behs, 4000)  # quick tier replays a seeded sample of the cover, thorough all of it
+        if ctx.quick and len(behs) > 7000:
+            behs = ctx.rng.sample(behs, 7000)  # quick tier replays a seeded sample of the cover, thorough all of it
         behs += g.random_walks(ctx.rng, 600 if ctx.quick else 12000, 30)
         for b in behs:
             yield core.Scenario({"ops": self._ops(b, consts)}, predicted=core.predicted_events(b), source="model")
